@@ -50,6 +50,16 @@ pub fn dispatch(fs: &[String]) -> String {
                 }
             }
         }
+        "bmc" => {
+            let ops: Vec<&str> = fs[1..].iter().map(|x| x.as_str()).collect();
+            let (adds, mut fields) = tc::verif_hooks::verif_run_collector(&ops);
+            fields.sort();
+            format!(
+                "{}\t{}",
+                adds.iter().map(|x| x.map(|v| v.to_string()).unwrap_or("-".to_string())).collect::<Vec<_>>().join(","),
+                fields.iter().map(|(k, n)| format!("{}:{}", esc(k), n)).collect::<Vec<_>>().join(",")
+            )
+        }
         "group" => group(a(1)),
         _ => "bad-op".to_string(),
     }
